@@ -408,3 +408,4 @@ def count_topologies_two_roots(a0: int, a1: int, a2: int, a3: int) -> bool:
     post: _
     """
     return _count_check(5, [a0, a1, a2, a3])
+
